@@ -77,6 +77,10 @@ def check_string(ctx, s):
     if T.valid(s):
         check_name(ctx, s)
         return
+    # other entry points see the malformed string first (their own behaviour on it is not part of the statement;
+    # what they may leave behind is)
+    for f in (notes.remove_redundant_accidentals, notes.augment, notes.diminish):
+        ctx.call(f, s)
     st, v = ctx.call(notes.is_valid_note, s)
     ctx.check("validity: false outside the grammar", st == "ok" and v is False, {"input": s}, False, v)
     expect_reject(ctx, notes.note_to_int, "note_to_int", s, NoteFormatError)
